@@ -111,8 +111,8 @@ def smaller(schema, a):
     if len(setf) > 1:
         for i in setf:  # keep one field only
             yield ("msg", a[1], [v if j == i else cleared(f) for j, (f, v) in enumerate(zip(c.fields, a[2]))])
-        for i in setf:
-            yield with_field(a, i, cleared(c.fields[i]))
+    for i in setf:
+        yield with_field(a, i, cleared(c.fields[i]))
     for i in setf:
         f, v = c.fields[i], a[2][i]
         if f.card == "repeated":
@@ -220,9 +220,10 @@ def json_name_safe(name):
 # ==========================================================================================
 # building betterproto messages from abstract values (shrunk cases, corpus)
 # ==========================================================================================
-def bp_value(schema, e, x, card=None):
+def bp_value(schema, e, x, card=None, plain=False):
     if x[0] == "msg":
-        return build_bp(schema, x[1], x)
+        # a plain (non-optional, non-oneof) sub-message is present iff its _serialized_on_wire flag is up
+        return build_bp(schema, x[1], x, force_sow=plain)
     if x[0] == "ts":
         return msggen.EPOCH + timedelta(seconds=x[1], microseconds=x[2] // 1000)
     if x[0] == "du":
@@ -234,7 +235,7 @@ def bp_value(schema, e, x, card=None):
     return x[1]
 
 
-def build_bp(schema, ci, a):
+def build_bp(schema, ci, a, force_sow=False):
     c = schema.classes[ci]
     kw = {}
     for f, v in zip(c.fields, a[2]):
@@ -245,9 +246,10 @@ def build_bp(schema, ci, a):
         elif f.card == "map":
             kw[f.name] = {bp_value(schema, f.key, k): bp_value(schema, f.elem, x) for k, x in v["map"]}
         else:
-            kw[f.name] = bp_value(schema, f.elem, v, f.card)
+            kw[f.name] = bp_value(schema, f.elem, v, f.card, plain=(f.card == "plain" and f.group is None))
     m = c.py(**kw)
-    object.__setattr__(m, "_serialized_on_wire", True)   # a present message (the parent's abstraction looks at this flag)
+    if force_sow:
+        object.__setattr__(m, "_serialized_on_wire", True)
     return m
 
 
@@ -544,7 +546,7 @@ def run(ctx):
             if len(ctx.cov["samples"]) < 6 and nontrivial:
                 ctx.sample({"class": s.classes[ci].name, "betterproto_json": safe(lambda: m.to_json())[:300],
                             "reference_json": safe(lambda: rs.to_json(ci, rs.build(ci, a)))[:300]})
-            if si == 0 or it < 60:
+            if ctx.thorough or (it % 4 == 0 if si == 0 else it < 25):
                 t3_cases.append((si, ci, a))
 
     # ---------------------------------------------------------------- 3. key mapping: one-field classes per proto field name
@@ -590,8 +592,429 @@ def run_names(ctx, R, C, names):
         s.dispose()
 
 
+# ==========================================================================================
+# T3 / T2: the specification evaluated inside Coq
+# ==========================================================================================
+SK = {"double": "KDouble", "float": "KFloat", "int32": "KInt32", "int64": "KInt64", "uint32": "KUInt32", "uint64": "KUInt64",
+      "sint32": "KSInt32", "sint64": "KSInt64", "fixed32": "KFixed32", "fixed64": "KFixed64", "sfixed32": "KSFixed32",
+      "sfixed64": "KSFixed64", "bool": "KBool", "string": "KString", "bytes": "KBytes"}
+NAN_BITS = 0x7FF8000000000000
+
+
+def qs(s):
+    return coq_bytes(s.encode("utf-8"))
+
+
+def has_presence(f):
+    return f.card in ("optional", "wrapper") or f.group is not None or f.elem.kind in ("msg", "datetime", "timedelta")
+
+
+def coq_jschema(s, rs):
+    cls = []
+    for ci, c in enumerate(s.classes):
+        used = sorted({f.group for f in c.fields if f.group is not None})
+        fl = []
+        for f in c.fields:
+            pname = rs.pname(ci, f)
+            jname = rs.cls[ci].DESCRIPTOR.fields_by_name[pname].json_name     # what the descriptor pool holds
+            if f.card == "wrapper":
+                kind = f"(JWrapper {SK[f.elem.pt]})"
+            elif f.elem.kind == "scalar":
+                kind = f"(JScalar {SK[f.elem.pt]})"
+            elif f.elem.kind == "enum":
+                kind = f"(JEnum {f.elem.ref}%nat)"
+            elif f.elem.kind == "msg":
+                kind = f"(JMsg {f.elem.ref}%nat)"
+            else:
+                kind = "JTimestamp" if f.elem.kind == "datetime" else "JDuration"
+            card = ("Repeated" if f.card == "repeated" else f"(MapOf {SK[f.key.pt]})" if f.card == "map"
+                    else "Explicit" if has_presence(f) else "Implicit")
+            grp = "None" if f.group is None else f"(Some {used.index(f.group)}%nat)"
+            fl.append(f"(mkJF {qs(pname)} {qs(jname)} {kind} {card} {grp})")
+        cls.append("[" + ";\n    ".join(fl) + "]")
+    en = ["[" + "; ".join(f"({qs(n)}, ({v})%Z)" for n, v in members) + "]" for members in s.enums]
+    return "(mkJS [" + ";\n  ".join(cls) + "] [" + "; ".join(en) + "])"
+
+
+def coq_leaf(x):
+    t = x[0]
+    if t == "i":
+        return f"(AInt ({x[1]}))"
+    if t == "b":
+        return f"(ABool {'true' if x[1] else 'false'})"
+    if t == "f":
+        return f"(AFloat ({NAN_BITS if x[1] == 'nan' else x[1]}))"
+    if t == "s":
+        return f"(AStr {qs(x[1])})"
+    if t == "y":
+        return f"(ABytes {coq_bytes(x[1])})"
+    if t == "e":
+        return f"(AEnum ({x[1]}))"
+    if t == "ts":
+        return f"(ATime ({x[1]}) ({x[2]}))"
+    if t == "du":
+        return f"(ADur ({x[1]}) ({x[2]}))"
+    raise ValueError(x)
+
+
+def key_text(k):
+    return ("true" if k[1] else "false") if k[0] == "b" else k[1] if k[0] == "s" else str(k[1])
+
+
+def sorted_entries(v):
+    return sorted(v["map"], key=lambda kv: key_text(kv[0]).encode("utf-8"))
+
+
+def coq_aval(s, a):
+    c = s.classes[a[1]]
+    out = []
+    for f, v in zip(c.fields, a[2]):
+        one = (lambda x: coq_aval(s, x)) if f.elem.kind == "msg" and f.card != "wrapper" else coq_leaf
+        if f.card == "repeated":
+            out.append("(FRep [" + "; ".join(one(x) for x in v) + "])")
+        elif f.card == "map":
+            out.append("(FMap [" + "; ".join(f"({coq_leaf(k)}, {one(x)})" for k, x in sorted_entries(v)) + "])")
+        elif v is None:
+            out.append("FAbsent")
+        else:
+            out.append(f"(FOne {one(v)})")
+    return "(AMsg [" + "; ".join(out) + "])"
+
+
+def cv_leaf(x):
+    t = x[0]
+    if t == "i":
+        return cl([cz(0), cz(x[1])])
+    if t == "b":
+        return cl([cz(1), lib.cbool(x[1])])
+    if t == "f":
+        return cl([cz(2), cz(NAN_BITS if x[1] == "nan" or (x[1] >> 52) & 2047 == 2047 and x[1] & ((1 << 52) - 1) else x[1])])
+    if t == "s":
+        return cl([cz(3), cb(x[1].encode("utf-8"))])
+    if t == "y":
+        return cl([cz(4), cb(x[1])])
+    if t == "e":
+        return cl([cz(5), cz(x[1])])
+    if t == "ts":
+        return cl([cz(6), cz(x[1]), cz(x[2])])
+    if t == "du":
+        return cl([cz(7), cz(x[1]), cz(x[2])])
+    raise ValueError(x)
+
+
+def cv_aval(s, a):
+    c = s.classes[a[1]]
+    out = [cz(8)]
+    for f, v in zip(c.fields, a[2]):
+        one = (lambda x: cv_aval(s, x)) if f.elem.kind == "msg" and f.card != "wrapper" else cv_leaf
+        if f.card == "repeated":
+            out.append(cl([cz(1)] + [one(x) for x in v]))
+        elif f.card == "map":
+            out.append(cl([cz(2)] + [cl([cv_leaf(k), one(x)]) for k, x in sorted_entries(v)]))
+        elif v is None:
+            out.append(CN)
+        else:
+            out.append(cl([cz(0), one(v)]))
+    return cl(out)
+
+
+def coq_json(j):
+    """Gallina literal of a parsed JSON text; object members sorted by key bytes (member order means nothing to a parser)"""
+    if j is None:
+        return "JNull"
+    if isinstance(j, bool):
+        return f"(JBool {'true' if j else 'false'})"
+    if isinstance(j, int):
+        return f"(JNum ({j}))"
+    if isinstance(j, float):
+        return f"(JFloat ({msggen.f64_bits(j)}))"
+    if isinstance(j, str):
+        return f"(JStr {qs(j)})"
+    if isinstance(j, list):
+        return "(JArr [" + "; ".join(coq_json(x) for x in j) + "])"
+    items = sorted(j.items(), key=lambda kv: kv[0].encode("utf-8"))
+    return "(JObj [" + "; ".join(f"({qs(k)}, {coq_json(v)})" for k, v in items) + "])"
+
+
+def has_surrogate(j):
+    if isinstance(j, str):
+        try:
+            j.encode("utf-8")
+            return False
+        except UnicodeEncodeError:
+            return True
+    if isinstance(j, list):
+        return any(has_surrogate(x) for x in j)
+    if isinstance(j, dict):
+        return any(has_surrogate(k) or has_surrogate(v) for k, v in j.items())
+    return False
+
+
+def cvj_generic(x):
+    if x is None:
+        return CN
+    if isinstance(x, bool):
+        return cl([cz(0), lib.cbool(x)])
+    if isinstance(x, int):
+        return cl([cz(1), cz(x)])
+    if isinstance(x, float):
+        return cl([cz(2), cz(msggen.f64_bits(x))])
+    if isinstance(x, str):
+        return cb(x.encode("utf-8"))
+    if isinstance(x, list):
+        return cl([cz(3)] + [cvj_generic(y) for y in x])
+    return cl([cz(4)] + [cl([cb(k.encode("utf-8")), cvj_generic(v)]) for k, v in sorted(x.items(), key=lambda kv: kv[0].encode("utf-8"))])
+
+
+def cvj_msg(env, ci, j):
+    """canonical value of the reference's JSON for class ci: numbers of float/double fields as binary64 patterns at field precision"""
+    c = env.s.classes[ci]
+    by_key = {env.rs.cls[ci].DESCRIPTOR.fields_by_name[env.rs.pname(ci, f)].json_name: f for f in c.fields}
+    out = []
+    for k, v in sorted(j.items(), key=lambda kv: kv[0].encode("utf-8")):
+        f = by_key[k]
+
+        def one(x, f=f):
+            if f.elem.kind == "msg" and f.card != "wrapper":
+                return cvj_msg(env, f.elem.ref, x)
+            if f.elem.kind == "scalar" and f.elem.pt in ("float", "double") and isinstance(x, (int, float)) and not isinstance(x, bool):
+                x = float(x)
+                if f.elem.pt == "float":
+                    x = struct.unpack("<f", struct.pack("<f", x))[0]
+                return cl([cz(2), cz(msggen.f64_bits(x))])
+            return cvj_generic(x)
+        if f.card == "repeated":
+            val = cl([cz(3)] + [one(x) for x in v])
+        elif f.card == "map":
+            val = cl([cz(4)] + [cl([cb(kk.encode("utf-8")), one(x)]) for kk, x in sorted(v.items(), key=lambda kv: kv[0].encode("utf-8"))])
+        else:
+            val = one(v)
+        out.append(cl([cb(k.encode("utf-8")), val]))
+    return cl([cz(4)] + out)
+
+
+def urlsafe_nopad(s):
+    return s.replace("+", "-").replace("/", "_").rstrip("=")
+
+
+def mutate(env, ci, j, rng, legal):
+    """one schema-aware change of a reference JSON object: a legal variant the parser must take, or an illegal one it must reject"""
+    c = env.s.classes[ci]
+    by_key = {env.R.protoc_json_name(env.rs.pname(ci, f)): f for f in c.fields}
+    keys = [k for k in j if k in by_key]
+    if not keys:
+        if legal:
+            return dict(j)
+        return {**j, "zzNoSuchField": 1}
+    k = rng.choice(keys)
+    f = by_key[k]
+    v = j[k]
+    out = dict(j)
+    kind = f.elem.pt if f.elem.kind == "scalar" or f.card == "wrapper" else f.elem.kind
+
+    def leaf(x):
+        if kind == "msg":
+            return mutate(env, f.elem.ref, x, rng, legal)
+        if legal:
+            if kind in INT_RANGE_KINDS:
+                return str(x) if isinstance(x, int) else int(x)
+            if kind == "enum":
+                members = env.s.enums[f.elem.ref]
+                if isinstance(x, str):
+                    return rng.choice([dict(members)[x], str(dict(members)[x])])
+                return str(x)
+            if kind == "bytes":
+                return urlsafe_nopad(x)
+            if kind == "datetime":
+                return x[:-1] + rng.choice(["+00:00", "-00:00"])
+            if kind == "timedelta":
+                ip, _, fp = x[:-1].partition(".")
+                return f"{ip}.{fp.ljust(9, '0')}s"
+            if kind in ("float", "double") and isinstance(x, float) and x == int(x) and abs(x) < 2 ** 53 and str(x) != "-0.0":
+                return int(x)
+            return x
+        # illegal
+        if kind in INT_RANGE_KINDS:
+            return (int(x) + (1 << 64)) if rng.random() < 0.5 else "12x"
+        if kind == "enum":
+            return rng.choice(["NO_SUCH_VALUE", 1 << 31, True])
+        if kind == "bytes":
+            return 5
+        if kind == "datetime":
+            return rng.choice([x[:-1], x.replace("T", " "), "0000-01-01T00:00:00Z", 5])
+        if kind == "timedelta":
+            return rng.choice([x[:-1], "s", "1.s", 3])
+        if kind in ("float", "double"):
+            return rng.choice(["abc", "", True, [1.0]])
+        if kind == "bool":
+            return rng.choice(["true", 1, 0])
+        if kind == "string":
+            return rng.choice([5, True, ["a"]])
+        return x
+    r = rng.random()
+    if legal and r < 0.25:
+        out.pop(k)
+        out[env.rs.pname(ci, f)] = v                      # the original proto field name as key
+        return {kk: out[kk] for kk in sorted(out)}
+    if legal and r < 0.35:
+        out[k] = None                                     # null: the field stays unset
+        return out
+    if not legal and r < 0.2:
+        out["zzNoSuchField"] = 1
+        return out
+    if f.card == "repeated":
+        out[k] = [leaf(x) for x in v] if legal or not v else [leaf(v[0])] + list(v[1:])
+        if not legal and not v:
+            out[k] = 5
+    elif f.card == "map":
+        if not v:
+            out[k] = {} if legal else [1]
+        else:
+            kk = rng.choice(sorted(v))
+            out[k] = {**v, kk: leaf(v[kk])}
+    else:
+        out[k] = leaf(v)
+    return out
+
+
+INT_RANGE_KINDS = ("int32", "int64", "uint32", "uint64", "sint32", "sint64", "fixed32", "fixed64", "sfixed32", "sfixed64")
+
+
 def run_coq(ctx, R, C, schemas, t3_cases, names):
-    pass
+    rng = ctx.rng
+    prelude = "\n".join(f"Definition js{i} : jschema := {coq_jschema(s, rs)}." for i, (s, rs) in enumerate(schemas))
+    pairs, meta = [], []
+
+    def add(model, expected, what, detail):
+        pairs.append((model, expected))
+        meta.append((what, detail))
+
+    def expected_of_parse(env, ci, text):
+        try:
+            r = env.rs.parse(ci, text)
+        except Exception as e:  # noqa
+            if "Float value too large" in str(e) or "Float value too small" in str(e):
+                # quirk of the Python reference: it compares the binary64 value with FLT_MAX before rounding, so it rejects
+                # "3.4028235e+38", the text it prints itself for the largest float32 (the C++ parser rounds first)
+                return "quirk", None
+            return CN, None
+        a = env.rs.abs(ci, r)
+        return cv_aval(env.s, a), a
+
+    for si, ci, a in t3_cases:
+        s, rs = schemas[si]
+        env = Env(s, rs, R)
+        r = rs.build(ci, a)
+        ref_text = rs.to_json(ci, r)
+        ref_j = json.loads(ref_text)
+        lit = coq_aval(s, a)
+        # json_spec a = what the reference prints
+        add(f"copt cv_of_json (json_spec js{si} {ci}%nat {lit})", cvj_msg(env, ci, ref_j), "json_spec vs MessageToJson",
+            {"schema": si, "class": s.classes[ci].name, "abstract": repr(a)[:1500], "reference_json": ref_text[:1500]})
+        # json_accepts on texts: expectation = what Parse makes of the very same text
+        texts = [("reference output", ref_text)]
+        for kw in ({"preserving_proto_field_name": True}, {"always_print_fields_with_no_presence": True},
+                   {"use_integers_for_enums": True}):
+            if rng.random() < 0.34:
+                texts.append((f"reference output {kw}", rs.to_json(ci, r, **kw)))
+        try:
+            bp_text = build_bp(s, ci, a).to_json()
+            texts.append(("betterproto output", bp_text))
+        except Exception:  # noqa
+            pass
+        for legal in (True, False):
+            if rng.random() < 0.6:
+                try:
+                    texts.append((f"{'legal' if legal else 'illegal'} variant", json.dumps(mutate(env, ci, ref_j, rng, legal))))
+                except Exception as e:  # noqa
+                    ctx.count("mutate_error:" + type(e).__name__)
+        for what, text in texts:
+            try:
+                j = json.loads(text)
+            except Exception:  # noqa
+                continue
+            if has_surrogate(j):
+                ctx.count("t3_skipped_lone_surrogate")
+                continue
+            exp, _ = expected_of_parse(env, ci, text)
+            if exp == "quirk":
+                ctx.count("t3_skipped_reference_rejects_its_own_float_max")
+                continue
+            ctx.count("t3_accepts:" + ("rejected" if exp == CN else "accepted"))
+            add(f"copt cv_of_aval (json_accepts js{si} {ci}%nat {coq_json(j)})", exp, f"json_accepts vs Parse ({what})",
+                {"schema": si, "class": s.classes[ci].name, "text": text[:1500]})
+
+    n_msg = len(pairs)
+    # ---- names: protoc_json_name against the descriptor pool and real protoc; the casing model against the live functions
+    protoc_names = real_protoc_json_names(ctx, names)
+    from ..msggen import Cls, Field, Schema, scalar
+    for start in range(0, len(names), 200):
+        part = names[start:start + 200]
+        sch = Schema([Cls(f"P{i}", [Field("v", 1, "plain", scalar("int32"))]) for i in range(len(part))], [])
+        try:
+            rs = R.RefSchema(sch, {(i, "v"): n for i, n in enumerate(part)}, explicit_json_name=False)
+            pool_names = [rs.cls[i].DESCRIPTOR.fields_by_name[n].json_name for i, n in enumerate(part)]
+        except Exception as e:  # noqa
+            ctx.fail("corr", f"descriptor pool refuses one-field messages for names: {e!r}", input=part[:10],
+                     theorem_or_correspondence="T3 protoc_json_name")
+            pool_names = [None] * len(part)
+        sch.dispose()
+        for n, pn in zip(part, pool_names):
+            if pn is not None:
+                add(f"CB (protoc_json_name {qs(n)})", cb(pn.encode()), "protoc_json_name vs descriptor pool", n)
+            if n in protoc_names:
+                add(f"CB (protoc_json_name {qs(n)})", cb(protoc_names[n].encode()), "protoc_json_name vs protoc", n)
+            live = C.camel_case(C.safe_snake_case(n)).rstrip("_")
+            add(f"CL [CB (bp_json_key {qs(n)}); cbool (json_name_safe {qs(n)})]",
+                cl([cb(live.encode()), lib.cbool(json_name_safe(n))]), "T2 casing model / side condition", n)
+    ctx.cov["evaluations"] += len(pairs)
+    try:
+        bad = lib.coq_compare(ctx, "c05", IMPORTS + " Proofs.C05Casing", pairs, chunk=150, prelude=prelude)
+    except RuntimeError as e:
+        ctx.fail("corr", "the specification could not be evaluated inside Coq", no_input=True, observed=str(e)[-1500:],
+                 theorem_or_correspondence="T3 Spec/JsonMap.v")
+        return
+    ctx.cov["disagreements_checked"] += len(pairs)
+    ctx.count("t3_message_cases", n_msg)
+    ctx.count("t3_name_cases", len(pairs) - n_msg)
+    for i in bad[:12]:
+        what, detail = meta[i]
+        got = eval_with_prelude(ctx, prelude, pairs[i][0])
+        is_t2 = what.startswith("T2")
+        ctx.fail("corr", ("casing model and live casing functions disagree" if is_t2 else
+                          "BROKEN SPEC: Spec/JsonMap.v disagrees with the reference implementation") + f" [{what}]",
+                 input=detail, expected_reference=pairs[i][1][:3000], observed_spec=got[-3000:],
+                 theorem_or_correspondence=("T2 Model/Casing.v" if is_t2 else "T3 Spec/JsonMap.v <-> google.protobuf.json_format"))
+
+
+def eval_with_prelude(ctx, prelude, expr):
+    path = os.path.join(ctx.work, f"c05eval_{abs(hash(expr)) % 10**9}.v")
+    with open(path, "w") as f:
+        f.write(f"From BP Require Import Base.Prelude {IMPORTS} Proofs.C05Casing.\n{prelude}\nEval vm_compute in ({expr}).\n")
+    rc, out = lib.run(["coqc", "-Q", lib.COQ, "BP", path], timeout=600)
+    return out.strip()[-3000:]
+
+
+def real_protoc_json_names(ctx, names):
+    """json_name as real protoc (grpc_tools) writes it into a descriptor set; {} if protoc is unusable"""
+    try:
+        from grpc_tools import protoc
+        from google.protobuf import descriptor_pb2
+        path = os.path.join(ctx.work, "c05names.proto")
+        with open(path, "w") as f:
+            f.write('syntax = "proto3";\npackage c05names;\n')
+            for i, n in enumerate(names):
+                f.write(f"message P{i} {{ int32 {n} = 1; }}\n")
+        out = os.path.join(ctx.work, "c05names.ds")
+        rc = protoc.main(["protoc", f"-I{ctx.work}", f"--descriptor_set_out={out}", path])
+        if rc != 0:
+            ctx.notes.append("protoc rejected the names file; json_name compared with the descriptor pool only")
+            return {}
+        ds = descriptor_pb2.FileDescriptorSet.FromString(open(out, "rb").read())
+        return {m.field[0].name: m.field[0].json_name for m in ds.file[0].message_type}
+    except Exception as e:  # noqa
+        ctx.notes.append(f"protoc unavailable ({e!r}); json_name compared with the descriptor pool only")
+        return {}
 
 
 def finish(ctx):
